@@ -15,7 +15,7 @@ for d in sorted(glob.glob(os.path.join(root, "seeded", "*"))):
     if not m.get("caught_by"):
         first = "on purpose: judged outside the statement, see meta.json"
         if m.get("obsolete"):
-            first = "no longer a fault on the repaired tree: " + m["obsolete"][:140] + "...; caught by " + ", ".join(m.get("caught_by_before_d643864", [])) + " before"
+            first = "no longer a fault on the repaired tree (" + m["obsolete"].split(":")[0] + "); caught by " + ", ".join(m.get("caught_by_before", [])) + " before"
     asbuilt[name] = (bool(m.get("caught_by")) or bool(m.get("obsolete"))) and not note.startswith("missed at first")
     rows.append(f"| {name} | {', '.join(os.path.basename(f) for f in m.get('files', []))} | {summ} | {needs} | {caught} ({first}) |")
 hand = """
@@ -57,7 +57,7 @@ table = ("Changes written by sub-agents that saw only the property text (section
          "reports a VIOLATION with the patch applied to /repo; \"as built\" means some check caught it before anything was\n"
          "changed, \"after strengthening\" that every check missed it at first and the owning check was extended (what was\n"
          "added is in the section 3 notes and in meta.json). Caught as built: round 1 %d of %d, round 2 %d of %d, round 3\n"
-         "%d of %d, round 4 %d of %d, round 5 %d of %d, round 6 %d of %d, round 7 %d of %d; all of the %d but the two marked \"on purpose\" and the two that stopped being faults are caught by the checks as they are now (`tools/regress_mutants.sh` re-runs every filed change\n"
+         "%d of %d, round 4 %d of %d, round 5 %d of %d, round 6 %d of %d, round 7 %d of %d; all of the %d but the two marked \"on purpose\" and the seven that stopped being faults when defects were repaired are caught by the checks as they are now (`tools/regress_mutants.sh` re-runs every filed change\n"
          "against the checks recorded for it).\n\n" % (nb[1][1], nb[1][0], nb[2][1], nb[2][0], nb[3][1], nb[3][0], nb[4][1], nb[4][0], nb[5][1], nb[5][0], nb[6][1], nb[6][0], nb[7][1], nb[7][0], len(rows)) +
          "| id | file | change | needs | caught by |\n|---|---|---|---|---|\n" + "\n".join(rows) + "\n" + hand)
 p = os.path.join(root, "DESIGN.md")
